@@ -957,7 +957,7 @@ impl Entry {
             .0
             .siblings(Direction::Prev)
             .skip(1)
-            .any(|n| n.kind() == ENTRY);
+            .any(|n| n.kind() == ENTRY || n.kind() == SUBSTVAR);
         while let Some(n) = self.0.next_sibling_or_token() {
             if n.kind() == WHITESPACE || n.kind() == NEWLINE {
                 n.detach();
